@@ -47,7 +47,7 @@ type SliceHeader struct {
 // FnvHash returns the fnv32 hash of the supplied string value.
 func FnvHash(n string) uint32 {
 	h := uint32(2166136261)
-	for i := range n {
+	for i := 0; i < len(n); i++ {
 		h *= 16777619
 		h ^= uint32(n[i])
 	}
